@@ -11,7 +11,7 @@ from vlib import algos
 ID = "C09"
 PROPS_FILE = "Props/C09.v"
 COQ_TARGETS = ["Harness/H09.vo"]
-# only the two statements about REAL arithmetic (c09_spea2_fitness_*_is_real) use them
+# only the three statements about REAL arithmetic (c09_spea2_fitness_*_is_real, c09_spea2_fitness_never_one) use them
 ALLOWED_AXIOMS = [
     "ClassicalDedekindReals.sig_forall_dec",
     "ClassicalDedekindReals.sig_not_dec",
@@ -44,8 +44,8 @@ META = {
                   "violation >= 0), no object listed twice in offspring + parents, GDE3: |offspring| = |parents| = n. Error/fuel values: a Python exception is an "
                   "explicit result, SPEA2's thinning loop is proved never to run out of fuel. The oracle clause 'archive-member-never-in-population' goes beyond the "
                   "literal property text (it pins the anchored mechanism 'archive extended with survivors'). Nothing is left *_partial. "
-                  "Axioms: none (closed under the global context) for every theorem except c09_spea2_fitness_order_is_real and c09_spea2_fitness_lt1_is_real, "
-                  "which state that in REAL arithmetic raw + 1/(sqrt(d2)+2) orders like the model's pair (raw, d2) and is < 1 iff raw = 0; these two use the "
+                  "Axioms: none (closed under the global context) for every theorem except c09_spea2_fitness_order_is_real, c09_spea2_fitness_lt1_is_real and c09_spea2_fitness_never_one, "
+                  "which state that in REAL arithmetic raw + 1/(sqrt(d2)+2) orders like the model's pair (raw, d2) and is < 1 iff raw = 0; these three use the "
                   "standard library's real-number axioms (ClassicalDedekindReals.sig_forall_dec, sig_not_dec, FunctionalExtensionality.functional_extensionality_dep).",
     "technique": "Coq proof (counting lemma over rank-monotone selections, generic comparators, exact Q arithmetic) + step-level correspondence on real runs (vm_compute) "
                  "+ per-step brute-force oracle",
